@@ -9,10 +9,10 @@ Run alone:  PYTHONPATH=/repo/src/main/python /venv/bin/python harness/witnesses.
 import io, sys, logging, traceback
 from fractions import Fraction
 
-W = {}   # name -> (property, function)
+W = {}   # (property, name) -> function   (names need only be unique within a property)
 def witness(prop, name):
     def d(f):
-        W[name] = (prop, f); return f
+        W[(prop, name)] = f; return f
     return d
 
 def _imsc(xml):
@@ -264,7 +264,7 @@ for _f in sorted(_glob.glob(_os.path.join(_os.path.dirname(_os.path.abspath(__fi
 def run(props=None, quiet=False):
     logging.disable(logging.CRITICAL)
     res = {}
-    for name, (prop, f) in W.items():
+    for (prop, name), f in W.items():
         if props and prop not in props: continue
         try:
             r = f()
